@@ -275,6 +275,8 @@ func (tst *tsTable) mergeParts(fileSystem fs.FileSystem, closeCh <-chan struct{}
 		return nil, err
 	}
 	mergedTagType.mustWriteTagType(fileSystem, dstPath)
+	// See memPart.mustFlush: the data-file entries must be durable before metadata.json exists.
+	fileSystem.SyncPath(dstPath)
 	pm.mustWriteMetadata(fileSystem, dstPath)
 	// No SyncPath: mustWriteMetadata goes through WriteAtomic which already
 	// fsyncs the parent directory after rename.
